@@ -252,7 +252,10 @@ class ThrRunner:
                 rec["n"] = self.sched.delete_jobs(py_tags(c.get("tags"), "set"), bool(c.get("any", False)))
                 rec["after"] = sorted(self.key_of[id(j)] for j in self.sched.jobs)
             elif k == "get":
-                self.sched.get_jobs(py_tags(c.get("tags"), "set"), bool(c.get("any", False)))
+                rec["tags"], rec["any"] = c.get("tags"), bool(c.get("any", False))
+                rec["before"] = sorted(self.key_of[id(j)] for j in self.sched.jobs)
+                got = self.sched.get_jobs(py_tags(c.get("tags"), "set"), bool(c.get("any", False)))
+                rec["result"] = sorted(self.key_of[id(j)] for j in got)
             elif k == "str":
                 text = str(self.sched)
                 rec["len"] = len(text)
@@ -306,6 +309,18 @@ class ThrRunner:
             kwargs = dict(kwargs or {}, conn=BadRepr())
             cell["payload_id"] = lambda seen, pid=payload: pid if (seen[1].get("p") == pid and isinstance(seen[1].get("conn"), BadRepr)) else 10**9
         cb = self.make_cb(cell)
+        hk = o.get("hkind")
+        if hk in ("partial_kw", "partial_pos") and self.scn.get("c19"):
+            # the callback is a functools.partial: its frozen arguments come first / are overridden by the scheduled
+            # keyword arguments, exactly as functools defines it
+            import functools
+            if hk == "partial_kw":
+                cb = functools.partial(cb, p=-1, frozen=7)
+                wa, wk = want_args, dict({"p": -1, "frozen": 7}, **want_kwargs)
+            else:
+                cb = functools.partial(cb, "front")
+                wa, wk = ("front",) + want_args, want_kwargs
+            cell["payload_id"] = lambda seen, wa=wa, wk=wk, pid=payload: pid if (seen[0] == wa and seen[1] == wk) else 10**9
         kw = {}
         if args is not None:
             kw["args"] = args
